@@ -101,6 +101,28 @@ C("tokenize.py::Token.strip",
            "not anchored(self) or anchored(result)"],
   result="Token", serves=["C11", "C12"])
 
+def _is_const(v, text):
+    from pyvc import models
+    return models.is_concrete(v) and models.concretise(v) == text
+
+
+# the one other form used in the tree: name.strip('()') in tal.parse_defines
+for _m, _posts in (("lstrip", ["result.pos + len(result) == self.pos + len(self)",
+                               "text(result) == text(self).lstrip('()')"]),
+                   ("rstrip", ["result.pos == self.pos", "text(result) == text(self).rstrip('()')"]),
+                   ("strip", ["result.pos + len(result) <= self.pos + len(self)",
+                              "text(result) == text(self).strip('()')"])):
+    C("tokenize.py::Token.%s@chars" % _m, params={"self": "Token", "chars": "str"},
+      requires=["chars == '()'"],
+      ensures=["same_origin(result, self)", "result.pos >= self.pos"] + _posts +
+              ["not anchored(self) or anchored(result)"],
+      result="Token", serves=["C11", "C12"],
+      ghost={'fixed_params': {'chars': '()'},
+             'search': {'alphabet': 'a ()', 'maxlen': 3, 'src_maxlen': 4, 'unanchored': False,
+                        'values': {'chars': ["'()'"]}},
+             'applies_when': lambda args, kwargs: bool(args) and _is_const(args[0], '()')},
+      notes="explicit character set (the set used by the tree: '()')")
+
 C("tokenize.py::Token.location",
   params={"self": "Token"}, is_property=True,
   requires=["self.source is None or (0 <= self.pos and self.pos <= len(self.source))"],
